@@ -121,7 +121,8 @@ def run(ctx):
     # M3
     tr = ctx.path("ed_trace.ndjson")
     ncases, fullevery = (200, 10) if ctx.thorough else (24, 12)
-    ctx.run_bin(binary, ["ed25519-trace", "--seed", ctx.seed, "--cases", ncases, "--fullevery", fullevery, "--out", tr])
+    ctx.run_bin(binary, ["ed25519-trace", "--seed", ctx.seed, "--cases", ncases, "--fullevery", fullevery,
+                         "--families", 24 if ctx.thorough else 8, "--out", tr])
     events = kat_events + vlib.read_ndjson(tr)
     cs = cases(events)
     ctx.cov["cases"] = len(cs)
